@@ -15,6 +15,7 @@ import (
 
 	"verif/harness/internal/engine"
 	"verif/harness/internal/ev"
+	"verif/harness/internal/loglevel"
 	"verif/harness/internal/vclock"
 )
 
@@ -40,6 +41,8 @@ type config struct {
 	// one, so they are free text: "" = t<n>; "nested" = pairs of ids of which one is the other plus "::retry" (the
 	// separator the concurrency quota uses inside its set members); "free" = spaces, colons, non-ASCII
 	IDs string `json:"id_style,omitempty"`
+	// LogLevel: the gateway's log level (LOG_LEVEL), output discarded; "" / "off" = logging disabled
+	LogLevel string `json:"log_level,omitempty"`
 }
 
 // idStyle is the id style of the case that is running (set where the case starts, like the clock)
@@ -250,6 +253,7 @@ func genConfig() *rapid.Generator[config] {
 		c.Second = rapid.SampledFrom([]string{"", "", "after", "before", "conc-after", "conc-before"}).Draw(t, "second")
 		c.Cluster = rapid.SampledFrom([]string{"none", "none", "gw-7f3a", "", ""}).Draw(t, "cluster")
 		c.IDs = rapid.SampledFrom([]string{"", "", "", "nested", "nested", "free"}).Draw(t, "ids")
+		c.LogLevel = loglevel.Gen().Draw(t, "log level")
 		return c
 	})
 }
@@ -444,6 +448,14 @@ func runHistory(h hist) (nontrivial bool, classes map[string]int, err error) {
 }
 
 func runHistoryInner(h hist) (nontrivial bool, classes map[string]int, err error) {
+	loglevel.With(h.Config.LogLevel, func() { nontrivial, classes, err = runHistoryAtLevel(h) })
+	if classes != nil {
+		classes["log level "+h.Config.LogLevel]++
+	}
+	return
+}
+
+func runHistoryAtLevel(h hist) (nontrivial bool, classes map[string]int, err error) {
 	classes = map[string]int{}
 	start := time.Unix(1_700_000_000, 0)
 	clk := vclock.New(start)
